@@ -778,7 +778,7 @@ def r4_channel_pairs(repo=None):
         if texts == plain or texts == ["os.path.normpath(%s)" % t_ for t_ in plain]:
             pair_ok = True
     # the same pair built statement by statement: `for ch in args.chs: pair = (join(args.src, ch), join(args.dest, ch))`
-    for lp_ in [x for x in ast.walk(f) if isinstance(x, ast.For) and isinstance(x.target, ast.Name) and norm(ast.unparse(x.iter)) == "args.chs"]:
+    for lp_ in [x for x in ast.walk(f) if isinstance(x, ast.For) and isinstance(x.target, ast.Name)]:
         for a_ in ast.walk(lp_):
             if isinstance(a_, ast.Assign) and isinstance(a_.value, ast.Tuple) and len(a_.value.elts) == 2:
                 texts = [norm(ast.unparse(e)) for e in a_.value.elts]
